@@ -747,6 +747,12 @@ class Executor:
                 return VTuple([VOpaque() for _ in range(n)])
             if isinstance(a, VDyn):
                 return pyval.unpack(self, state, a, n)
+            if isinstance(a, VRef) and state.heap[a.oid].kind == "list" and state.heap[a.oid].seq is not None:
+                # a list of symbolic length: ValueError unless it has exactly n elements
+                o = state.heap[a.oid]
+                self.raise_if(state, z3.Length(o.seq) != n, "ValueError")
+                from .ops import value_of_elem
+                return VTuple([value_of_elem(o.elem, o.seq[i]) for i in range(n)])
             raise Unsupported("unpack of %r" % (a,))
         r = self.dist(state, [v], f)
         if isinstance(r, VTuple):
